@@ -212,7 +212,7 @@ class Interp:
                 iters = [n_ for n_ in ast.walk(fn) if isinstance(n_, ast.For) and isinstance(n_.iter, ast.Name) and n_.iter.id == nm]
                 if muts and all(m_.func.attr == "append" and len(m_.args) == 1 and not m_.keywords for m_ in muts) and len(inits) == 1 and inits[0].value is not None and (
                         (isinstance(inits[0].value, ast.List) and not inits[0].value.elts) or (isinstance(inits[0].value, ast.Call) and ast.unparse(inits[0].value) == "list()")) \
-                        and len(uses.get(nm, [])) == len(muts) + len(inits) + len(iters):
+                        and len(uses.get(nm, [])) == len(muts) + len(inits) + len(iters) + len(_pure_reads(fn, nm)):
                     self.append_only.add(nm)
         from . import sym as _sym
         _sym.NON_OPTIONAL_RETURNS.clear()
@@ -939,9 +939,21 @@ class _EvalBuilder(_Builder):
             return simplify(("ife", t, self.ev(n.body), self.ev(n.orelse)))
         if isinstance(n, ast.Lambda) or isinstance(n, (ast.ListComp, ast.SetComp, ast.DictComp, ast.GeneratorExp)):
             return self._comp(n)
+        if isinstance(n, ast.NamedExpr) and isinstance(n.target, ast.Name) and not self.pure and i.frames:
+            v = self.ev(n.value)
+            i._assign(n.target, v, n, quiet=True)
+            return i.lookup(n.target.id) or v
         s = super().ev(n)
         if s[0] in ("n", "a", "sub", "item"):
             s = i._rewrite(s)
+        if s[0] == "a" and s[2] in ("format", "size") and s[1][0] == "call" and dotted(s[1][1]) in ("struct.Struct", "Struct") and len(s[1][2]) == 1 \
+                and s[1][2][0][0] == "c" and isinstance(s[1][2][0][1], str):
+            # attributes of a compiled struct.Struct(F): its format text and the size that format packs to
+            import struct as _struct
+            try:
+                return C(s[1][2][0][1]) if s[2] == "format" else C(_struct.calcsize(s[1][2][0][1]))
+            except _struct.error:
+                return s
         return s
 
     def _comp(self, n: ast.AST) -> Sym:
@@ -1043,6 +1055,8 @@ class _EvalBuilder(_Builder):
                     return s
             if name == "bool" and len(args) == 1 and args[0][0] == "c":
                 return C(bool(args[0][1]))
+            if name in ("bool", "len") and len(args) == 1 and args[0][0] in ("list", "tuple") and not any(x[0] == "star" for x in args[0][1]):
+                return C(bool(args[0][1])) if name == "bool" else C(len(args[0][1]))
             if name == "isinstance" and len(args) == 2 and args[1][0] == "n":
                 shape = {"list": "list", "tuple": "tuple", "set": "set", "dictd": "dict"}.get(args[0][0])
                 if shape is not None and args[1][1] in ("list", "tuple", "set", "dict"):
@@ -1272,6 +1286,20 @@ class _EvalBuilder(_Builder):
         if fn.args.kwarg:
             return None
         return (i.mod, fn)
+
+
+def _pure_reads(fn: ast.AST, nm: str) -> List[ast.AST]:
+    """reads of the local `nm` that cannot change it: argument of bool / len / tuple / sorted ..., operand of `not`, a test"""
+    out: List[ast.AST] = []
+    for n in ast.walk(fn):
+        if isinstance(n, ast.Call) and isinstance(n.func, ast.Name) and n.func.id in ("bool", "len", "tuple", "sorted", "reversed", "enumerate", "any", "all", "sum", "min", "max") \
+                and not n.keywords:
+            out += [a for a in n.args if isinstance(a, ast.Name) and a.id == nm]
+        elif isinstance(n, ast.UnaryOp) and isinstance(n.op, ast.Not) and isinstance(n.operand, ast.Name) and n.operand.id == nm:
+            out.append(n.operand)
+        elif isinstance(n, (ast.If, ast.While, ast.IfExp)) and isinstance(n.test, ast.Name) and n.test.id == nm:
+            out.append(n.test)
+    return out
 
 
 def _nonempty_text(s: Sym) -> bool:
